@@ -347,7 +347,11 @@ def cmp_guard(a, block, lhs, rhs):
 def alias_locals(a, l):
     """locals that hold the same value/reference as local l: plain copies/moves of it and whole reborrows `&*l`
     (argument passing of an inlined helper, `let x = y;`)"""
-    al = {l}
+    return alias_locals_from(a, {l})
+
+
+def alias_locals_from(a, start):
+    al = set(start)
     changed = True
     while changed:
         changed = False
@@ -367,7 +371,81 @@ def alias_locals(a, l):
     return al
 
 
-def _is_alias_def(st, al):
+def closure_carriers(a, al):
+    """closure values that merely *carry* the reference held by the locals `al` (captured by an inlined closure literal):
+    {closure local: set of capture positions}.  Reading such a capture back (`copy c.k`) yields the reference again; `al` is
+    extended in place with those reads.  A carrier that escapes (call argument, stored, returned) is not listed: every
+    occurrence of it then counts as a use."""
+    car = {}
+    changed = True
+    while changed:
+        changed = False
+        for blk in a.body.blocks:
+            for st in blk['stmts']:
+                if st['k'] != 'assign' or st['place']['p']:
+                    continue
+                x, rv = st['place']['l'], st['rv']
+                if rv['k'] == 'aggregate' and rv.get('agg') == 'closure' and x not in car and len(a.defs.get(x, [])) == 1:
+                    pos = {i for i, f in enumerate(rv['fields']) if f.get('k') in ('copy', 'move') and not f['place']['p'] and f['place']['l'] in al}
+                    if pos:
+                        car[x] = pos
+                        changed = True
+                elif rv['k'] == 'use' and rv['op']['k'] in ('copy', 'move'):
+                    pl = rv['op']['place']
+                    if not pl['p'] and pl['l'] in car and x not in car and len(a.defs.get(x, [])) == 1:
+                        car[x] = set(car[pl['l']])
+                        changed = True
+                    elif pl['l'] in car and len(pl['p']) == 1 and isinstance(pl['p'][0], dict) and pl['p'][0].get('i') in car[pl['l']] \
+                            and x not in al and len(a.defs.get(x, [])) == 1:
+                        al.add(x)
+                        changed = True
+    # escape: any other occurrence of a carrier
+    def occurs(xj, skip_stmt=None):
+        found = []
+
+        def scan(y):
+            if isinstance(y, dict):
+                if 'l' in y and 'p' in y and y['l'] in car:
+                    found.append(y['l'])
+                for v in y.values():
+                    scan(v)
+            elif isinstance(y, list):
+                for v in y:
+                    scan(v)
+        scan(xj)
+        return found
+    bad = set()
+    for blk in a.body.blocks:
+        if blk['cleanup']:
+            continue
+        for st in blk['stmts']:
+            if st['k'] == 'assign' and not st['place']['p']:
+                x, rv = st['place']['l'], st['rv']
+                if x in car and rv['k'] == 'aggregate':
+                    continue
+                if rv['k'] == 'use' and rv['op']['k'] in ('copy', 'move') and rv['op']['place']['l'] in car:
+                    pl = rv['op']['place']
+                    if (not pl['p'] and x in car) or (len(pl['p']) == 1 and isinstance(pl['p'][0], dict) and 'f' in pl['p'][0]):
+                        continue
+            if st['k'] in ('storage_live', 'storage_dead', 'nop'):
+                continue
+            bad.update(occurs(st))
+        t = blk['term']
+        if t['k'] == 'drop':
+            continue
+        bad.update(occurs(t))
+    for x in bad:
+        car.pop(x, None)
+    return car
+
+
+def _is_alias_def(st, al, car=None):
+    if car and st['k'] == 'assign' and not st['place']['p']:
+        x, rv = st['place']['l'], st['rv']
+        if x in car and rv['k'] == 'aggregate' and rv.get('agg') == 'closure':
+            return True
+        if rv['k'] == 'use' and rv['op']['k'] in ('copy', 'move') and rv['op']['place']['l'] in car:
+            return True
     if st['k'] != 'assign' or st['place']['p'] or st['place']['l'] not in al:
         return False
     rv = st['rv']
@@ -392,6 +470,14 @@ def uses_of_local_blocks(a, l, ignore_len=False):
     call args); the copies themselves are not uses.  ignore_len: reading only the slice's length is not a use"""
     out = set()
     al = alias_locals(a, l)
+    # the reference captured by an inlined closure literal and read back inside its (inlined) body
+    car = {}
+    for _ in range(4):
+        n0 = len(al)
+        car = closure_carriers(a, al)
+        if len(al) == n0:
+            break
+        al |= alias_locals_from(a, al)
 
     def scan(x, bi):
         if isinstance(x, dict):
@@ -406,7 +492,7 @@ def uses_of_local_blocks(a, l, ignore_len=False):
         if blk['cleanup'] or bi not in a.cfg.reach:
             continue
         for st in blk['stmts']:
-            if _is_alias_def(st, al) or (ignore_len and _is_len_read(st, al)):
+            if _is_alias_def(st, al, car) or (ignore_len and _is_len_read(st, al)):
                 continue
             scan(st, bi)
         if not (ignore_len and _is_len_read(blk['term'], al)):
